@@ -14,7 +14,7 @@ CHECK = dict(
               "newDefinition/leader/transport/Msg/round timers in virtual time, every message delivered through the recipient's real receive handler "
               "(Consensus.handle: signature and justification verification, count limits, conversion, receive buffer); exact oracles on decision "
               "round and instant",
-    claim="n=4 (quick) / n=4..7 (thorough): every subset of at most f faulty members, every fault kind for the first of them (crash during its "
+    claim="n=4..6 (quick; n=6 and the proposer duty reduced) / n=4..7 (thorough): every subset of at most f faulty members, every fault kind for the first of them (crash during its "
           "k-th broadcast k<=4 reaching nobody / half / all but one of the others, silent from the start, start late by 1/4 or 3/4 of the first round, "
           "proposal late by the same), each also with every single slow (3*delta) running sender; all n leader rotations; increasing, eager "
           "double-linear and linear timers, attester duty and proposer duty with the proposal-timeout feature. Oracle: every running member decides, "
